@@ -17,6 +17,9 @@ func (x *Exec) step(fr *Frame, st *State, ins ssa.Instruction, cont func(*Frame,
 	case *ssa.Alloc:
 		elem := in.Type().(*types.Pointer).Elem()
 		ref := x.newRef(st, in.Comment)
+		if !in.Heap {
+			st.markStack(ref)
+		}
 		p := &PtrV{Ref: ref, Elem: elem}
 		x.StoreTo(st, p, x.zeroValue(elem))
 		if typeKey(elem) == "math/big.Int" {
@@ -470,7 +473,15 @@ func (x *Exec) unop(fr *Frame, st *State, in *ssa.UnOp) Value {
 	switch in.Op {
 	case token.MUL: // load
 		p := v.(*PtrV)
-		return x.nameValue(st, in.Type(), x.Load(st, p), in.Name())
+		lv := x.nameValue(st, in.Type(), x.Load(st, p), in.Name())
+		if g, ok := in.X.(*ssa.Global); ok {
+			if iv, ok := lv.(*IfaceV); ok && x.P.sentinelError(g) {
+				// a package-level error variable initialised once with errors.New / fmt.Errorf and never
+				// reassigned anywhere in the module: non-nil, and identified by its variable
+				st.Assume(Neq(iv.Tag, IntConstI(0)))
+			}
+		}
+		return lv
 	case token.NOT:
 		return Not(v.(*Term))
 	case token.SUB:
